@@ -87,6 +87,18 @@ def sharing_templates(rng, gen, n):
                                                             ('assert', ('binary', 'ne', ('std', 'type', [R]), s_('')), s_('m')), fld('out', B), fld('out2', R)])),
         ('object-local+assert+inherit', lambda t, B: ('binary', 'add', ('object', [('local', 'zz_r', None, t), ('assert', eq(R, R), None), fld('out', B)]),
                                                       ('object', [fld('more', ('sfield', 'out')), ('assert', eq(('field', ('self',), 'out'), ('sfield', 'out')), None)]))),
+        # the first access goes through a field of another layer / a literal field, so the asserts run before the
+        # layer of the local has any other use
+        ('object-local+assert, other layer read first', lambda t, B: ('local', [('zz_o', None, ('binary', 'add',
+            ('object', [('local', 'zz_r', None, t), ('assert', eq(R, R), None), fld('out', B)]), ('object', [fld('b', one)])))],
+            ('array', [('field', ('var', 'zz_o'), 'b'), ('field', ('var', 'zz_o'), 'out')]))),
+        ('object-local+assert, literal field read first', lambda t, B: ('local', [('zz_o', None,
+            ('object', [('local', 'zz_r', None, t), ('assert', eq(R, R), None), fld('lit', one), fld('out', B)]))],
+            ('array', [('field', ('var', 'zz_o'), 'lit'), ('field', ('var', 'zz_o'), 'out')]))),
+        ('object-local+assert, extended twice, upper read first', lambda t, B: ('local', [('zz_o', None, ('binary', 'add', ('binary', 'add',
+            ('object', [('local', 'zz_r', None, t), ('assert', eq(R, R), None), fld('out', B)]), ('object', [fld('b', one)])),
+            ('object', [fld('c', ('sfield', 'b'))])))],
+            ('array', [('field', ('var', 'zz_o'), 'c'), ('field', ('var', 'zz_o'), 'out'), ('field', ('var', 'zz_o'), 'b')]))),
         ('hidden-field', lambda t, B: ('local', [('zz_o', None, ('object', [fld('f', t, 'h')]))], ('local', [('zz_r', None, ('field', ('var', 'zz_o'), 'f'))], B))),
         ('array-element', lambda t, B: ('local', [('zz_a', None, ('array', [t]))], ('local', [('zz_r', None, ('index', ('var', 'zz_a'), ('num', 0.0)))], B))),
         ('self-field', lambda t, B: ('field', ('object', [fld('zz_h', t, 'h'), fld('out', ('local', [('zz_r', None, ('field', ('self',), 'zz_h'))], B))]), 'out')),
@@ -136,6 +148,16 @@ def lazy_builtin_templates(rng, gen):
         'std.isArray([%s])', 'std.type({a: %s})', 'std.length(std.flatMap(function(x) [x, x], [%s]))', 'std.length(std.slice([%s, 1], 0, 1, 1))',
         'std.length(std.objectValues({a: %s}))', 'std.length(std.prune([1, [%s][1:]]))', 'local a = [%s]; std.length(a + a)',
         'std.length(std.mapWithKey(function(k, v) v, {a: %s}))', '[%s, 5][1]', '{a: %s, b: 5}.b', 'std.get({a: %s, b: 5}, "b")',
+        # an accumulator / default / argument the callback or the result never looks at
+        'std.foldl(function(a, x) x, [1, 2], %s)', 'std.foldr(function(x, a) x, [1, 2], %s)', 'std.foldl(function(a, x) 7, [1], %s)',
+        'std.foldr(function(x, a) 7, [1, 2, 3], %s)', 'std.get({a: 1}, "a", %s)', 'std.mapWithKey(function(k, v) k, {a: %s}).a',
+        'std.objectHasAll({a:: %s}, "a")', 'std.length(std.objectValuesAll({a:: %s}))', 'std.length(std.objectFieldsAll({a:: %s}))',
+        'std.length(std.removeAt([%s, 1], 1))', 'std.length(std.flattenArrays([[%s], [1]]))', 'std.length(std.join([], [[%s], [2]]))',
+        'if true then 1 else %s', 'true || %s', 'false && %s', 'local f(x, y) = x; f(1, %s)', 'local f(x, y=%s) = x; f(1)',
+        'std.length(std.filterMap(function(x) false, function(x) %s, [1, 2]))', 'std.length(std.mapWithIndex(function(i, x) %s, [1]))',
+        'std.length(std.makeArray(3, function(i) %s)[1:])', 'std.length(std.objectKeysValues({a: %s}))', 'std.map(function(x) 1, [%s])[0]',
+        'std.length(std.sort([%s], function(x) 1))', 'std.length(std.sort([], function(x) %s))', 'std.length(std.uniq([%s]))',
+        'std.length(std.set([%s]))', 'std.reverse([%s, 5])[0]', 'std.repeat([%s, 5], 2)[3]',
     ]:
         out.append((src % T, 0, 'lazy builtin'))
     return out
